@@ -19,7 +19,7 @@ from vf.core import CaseResult, Ctx, Violation, hyp_run
 
 PROP_ID = 'C41'
 LEVEL = 'exploration'
-BUDGET = {'quick': 3200, 'thorough': 80000}
+BUDGET = {'quick': 2000, 'thorough': 80000}
 RULE = (
     'Hypothesis draws 1-6 variables (legal names that are not bash special '
     'variables) with values built from parts: literal text over printable '
@@ -104,7 +104,8 @@ def render(case):
         parts = v['parts']
         value = ''
         alts = [[]]     # alternative expected piece lists
-        for k, p in enumerate(parts):
+        open_ref = False   # an unbraced "$NAME" is at the end of value
+        for p in parts:
             if p[0] == 'tilde':
                 user, follow = p[1], p[2]
                 value += '~' + user + follow
@@ -117,16 +118,18 @@ def render(case):
                 text = p[1]
                 if not value and text.startswith('~'):
                     text = 'x' + text      # leading tilde only via 'tilde'
-                if k > 0 and parts[k - 1][0] == 'ref' and not parts[k - 1][2]:
+                if open_ref and text and re.match(r'\w', text[0], re.A):
                     # "$NAME" must not run into a following word character
-                    if text and re.match(r'\w', text[0], re.A):
-                        text = '.' + text
+                    text = '.' + text
+                if text:
+                    open_ref = False
                 value += text
                 alts = [a + [('s', text)] for a in alts]
             else:
                 idx, braces = p[1], p[2]
                 ref = names[idx]
                 value += '${%s}' % ref if braces else '$' + ref
+                open_ref = not braces
                 alts = [a + e for a in alts for e in exp_by_idx[idx]]
         if value == '':
             alts = [[('s', '')]]
